@@ -148,7 +148,7 @@ def roundCount : Num → Except String Nat
 def takeCount : Num → Except String (Option Nat)
   | .int z => .ok (some z.toNat)
   | .bool b => .ok (some (if b then 1 else 0))
-  | .frac q => if q ≤ 0 then .ok (some 0) else .error "ValueError"   -- islice wants an int
+  | .frac q => if q < 0 then .ok (some 0) else .error "ValueError"   -- `max(n, 0)` stays a Fraction: islice wants an int
   | .float q => .ok (some (if 0 < q then (rintPos q).toNat else 0))
   | .inf neg => .ok (if neg then some 0 else none)
   | .nan => .ok (some 0)
